@@ -14,9 +14,10 @@ def digest_chunk(chunk) -> str:
         if df is None:
             h.update(b'None')
             continue
-        h.update(repr(list(df.columns)).encode())
+        cols = sorted(df.columns) if name == 'data' else list(df.columns)     # the column order of the hit table follows the input
+        h.update(repr(cols).encode())
         h.update(repr(list(df.index)).encode())
-        for c in df.columns:
+        for c in cols:
             col = df[c]
             if col.dtype.kind == 'f':
                 h.update(np.ascontiguousarray(col.to_numpy(dtype=float)).tobytes())
